@@ -59,6 +59,8 @@ pub enum Action {
     /// handed to raft later by a `Notify` action (write thread sends, peer thread is told later).
     Fsync { n: NodeId, count: u32, #[serde(default)] defer: bool },
     Notify { n: NodeId },
+    /// Only the oldest completed, not yet reported Ready number is reported (`on_persist_ready(k)` one by one).
+    NotifyOne { n: NodeId },
     /// Application applies up to `count` stashed committed entries, then `advance_apply_to`.
     Apply { n: NodeId, count: u32 },
     Propose { n: NodeId, id: u64, size: u32 },
